@@ -169,7 +169,7 @@ LIT = {"args": ["(1,2)", "()", "([1,2],)", "([1,2],)", "(1,)"], "kwargs": ["{'a'
        "arg_iter": ["[1,2,3]", "[]", "['x']", "[[1,2],[3]]", "[[1,2],[3]]", "[{'k':1}]"],
        "args_iter": ["[(1,2),(3,4)]", "[]", "[(5,)]", "[([1],2)]", "[([1],2)]"],
        "kwargs_iter": ["[{'a':1},{'a':2}]", "[]", "[{'a':[1,2]}]", "[{'a':[1,2]}]"]}
-PATHS = ["ctrlrun.work", "ctrlrun.work2", "ctrlrun.notcoro", "ctrlrun.slow"]
+PATHS = ["ctrlrun.work", "ctrlrun.work2", "ctrlrun.notcoro", "ctrlrun.slow", "ctrlrun.boom"]
 
 
 def draw_value(rng, dest, conv):
@@ -184,7 +184,7 @@ def draw_value(rng, dest, conv):
     if conv == "path":
         if "callback" in dest:
             return rng.choice(["ctrlrun.cb", "ctrlrun.cb", "ctrlrun.work"])
-        return rng.choice(PATHS[:3] + PATHS[:2])
+        return rng.choice(PATHS[:3] + PATHS[:2] + PATHS[4:])
     return "x"
 
 
@@ -339,6 +339,11 @@ def job_c18(clsname, seed, count, two_sessions=False, replay_lines=None):
         oracle = [ctrlrun.Sess(T, width=x.width) for x in sess]     # twin sessions: parser oracle
         for x in sess + oracle:
             await x.start()
+        if seed % 2 == 0 and not clsname.startswith("Simple") and clsname not in ("SubB", "SubD"):
+            # tasks that failed (started through the API, not through a session): a `flush` line
+            # then has an exception to report - as its one reply, the session stays usable
+            A.apply(ctrlrun.boom, args=(seed,), num=2)
+            await ctrlrun.settle(12)
         model_in = [[] for _ in sess]
         real_replies = [[] for _ in sess]
         late = []
